@@ -617,7 +617,7 @@ impl Property for C15 {
         outv
     }
     fn rule(&self) -> String {
-        "C06-style runs (some with a failing child) under a listener configuration drawn from: none; --stdout / --stderr / both; target and command filters; and a listener fault drawn from: never; SIGKILL before the run connects; SIGKILL between two groups (monorail parked at run.group.done); SIGKILL after the k-th acknowledged write of a child (flush knob 5-100 ms, so flushes have already used the connection); SIGSTOP ... SIGCONT around 1-4 writes. Oracle: the listener-independent models (status model, exit status, stored logs of every task that ran to completion, nothing reported finished is still running); one scenario in four (thorough: all) is also executed without a listener and compared. Non-trivial = the listener received data, or a fault fired after data had been delivered; distinct = (trace length, listener config, faults fired, strategy)".into()
+        "C06-style runs (some with a failing child) under a listener configuration drawn from: none; --stdout / --stderr / both; target and command filters; and a listener fault drawn from: never; SIGKILL before the run connects; SIGKILL between two groups (monorail parked at run.group.done); SIGKILL after the k-th acknowledged write of a child (flush knob 5-100 ms, so flushes have already used the connection); SIGSTOP ... SIGCONT around 1-4 writes. Oracle: the listener-independent models (status model, exit status, stored logs of every task that ran to completion, nothing reported finished is still running); one scenario in four (thorough: all) is also executed without a listener and compared. Rounds 11-12: one listener in six has a target filter value that names no configured target (`app/`, `./app`, a typo); one scenario in 25 is a task that writes non-blocking until its pipe has stayed full for 400 ms behind a listener stopped for 3.5-5 s and exits at that moment (every line it wrote must be stored; judged on its own, not against a twin). Non-trivial = the listener received data, or a fault fired after data had been delivered; distinct = (trace length, listener config, faults fired, strategy)".into()
     }
     fn components(&self) -> Value {
         components()
@@ -1062,7 +1062,7 @@ impl Property for C20 {
         outv
     }
     fn rule(&self) -> String {
-        "a real `log tail` listener (stream and target/command filter combinations) and a run of 4-12 (thorough 4-24) concurrent tasks, each writing 6-20 small writes of 1-3 newline-terminated lines on both streams (lines carry command@target, stream and a sequence number), flush knob 5-20 ms so every task flushes many blocks onto the one connection, TOKIO_WORKER_THREADS 4-16, one in four with the listener SIGSTOPped for 5-40 writes to build back-pressure; one in six is two runs back to back on one listener, the first ending with bursts of 2500-5000 lines so that the listener is still relaying them when the second connects. Oracle on the listener's stdout: one segment per connection, each starting with its (uncoloured) stream header; every later line belongs to the block of the nearest preceding header; per (stream, target, command) the blocks concatenate to the stored log; no block outside the filters. Non-trivial = >= 2 streams contributed >= 2 blocks each and blocks of different streams alternate in the capture; distinct = (tasks, filter, block count, alternations, flush knob)".into()
+        "a real `log tail` listener (stream and target/command filter combinations) and a run of 4-12 (thorough 4-24) concurrent tasks, each writing 6-20 small writes of 1-3 newline-terminated lines on both streams (lines carry command@target, stream and a sequence number), flush knob 5-20 ms so every task flushes many blocks onto the one connection, TOKIO_WORKER_THREADS 4-16, one in four with the listener SIGSTOPped for 5-40 writes to build back-pressure; one in six is two runs back to back on one listener, the first ending with bursts of 2500-5000 lines so that the listener is still relaying them when the second connects. Oracle on the listener's stdout: one segment per connection, each starting with its (uncoloured) stream header; every later line belongs to the block of the nearest preceding header; per (stream, target, command) the blocks concatenate to the stored log; no block outside the filters. Round 12: one small world in five has nesting and prefix-sharing target names (rust, rust/core, rustfmt, rustfmt/cli, app, apps/web ...) with a filter naming the short ones (a filter value admits the target of exactly that name); in one scenario in three one line in six ends in blanks (space, tab, no-break space, ideographic space, form feed) before its newline. Non-trivial = >= 2 streams contributed >= 2 blocks each and blocks of different streams alternate in the capture; distinct = (tasks, filter, block count, alternations, flush knob)".into()
     }
     fn components(&self) -> Value {
         components()
